@@ -12,7 +12,7 @@ Definition ex_session : list ev := [ERefresh true; EPacket 1 [5; 0; 0]; ESetToc 
 
 (* a configuration with 12 one-byte variables: two messages (nine + three) *)
 Definition ex_cfg12 : list ev :=
-  ENew 100 :: map (fun k => EAddVar 0 k 1) [0;1;2;3;4;5;6;7;8;9;10;11].
+  ENew 100 1 :: map (fun k => EAddVar 0 k 1) [0;1;2;3;4;5;6;7;8;9;10;11].
 
 Example ex_split_at_nine :
   snd (run init_st (ex_session ++ ex_cfg12 ++ [EAddConfig 0; EStart 0])) <> [] /\
@@ -40,13 +40,13 @@ Proof. vm_compute. repeat split; reflexivity. Qed.
 Definition ex_bytes (n : list Z) : list ev := map (fun k => EAddVar 0 k 1) n.
 Example ex_boundary_26_27 :
   let b22 := ex_bytes [0;1;2;3;4;5;6;7;8;9;10;11;0;1;2;3;4;5;6;7;8;9] in
-  snd (add_config (final init_st (ex_session ++ [ENew 100] ++ b22 ++ [EAddVar 0 20 7])) 0) = AccAccepted /\
-  snd (add_config (final init_st (ex_session ++ [ENew 100] ++ b22 ++ [EAddVar 0 20 7; EAddVar 0 10 1])) 0)
+  snd (add_config (final init_st (ex_session ++ [ENew 100 1] ++ b22 ++ [EAddVar 0 20 7])) 0) = AccAccepted /\
+  snd (add_config (final init_st (ex_session ++ [ENew 100 1] ++ b22 ++ [EAddVar 0 20 7; EAddVar 0 10 1])) 0)
     = AccRejected AttributeError /\
-  snd (add_config (final init_st (ex_session ++ [ENew 2550] ++ b22)) 0) = AccRejected AttributeError /\
-  snd (add_config (final init_st (ex_session ++ [ENew 2549] ++ b22)) 0) = AccAccepted /\
-  snd (add_config (final init_st (ex_session ++ [ENew 9] ++ b22)) 0) = AccRejected AttributeError /\
-  snd (add_config (final init_st (ex_session ++ [ENew 100] ++ b22 ++ [EAddVar 0 30 1])) 0) = AccRejected KeyError.
+  snd (add_config (final init_st (ex_session ++ [ENew 2550 1] ++ b22)) 0) = AccRejected AttributeError /\
+  snd (add_config (final init_st (ex_session ++ [ENew 2549 1] ++ b22)) 0) = AccAccepted /\
+  snd (add_config (final init_st (ex_session ++ [ENew 9 1] ++ b22)) 0) = AccRejected AttributeError /\
+  snd (add_config (final init_st (ex_session ++ [ENew 100 1] ++ b22 ++ [EAddVar 0 30 1])) 0) = AccRejected KeyError.
 Proof. vm_compute. repeat split; reflexivity. Qed.
 
 (* unpack: int8 -1, uint16 0xBEEF, float bits *)
@@ -63,7 +63,7 @@ Qed.
 
 (* ---------------------------------------------------------------- F05a: raw-memory variable *)
 Definition ex_mem_history : list ev :=
-  ex_session ++ [ENew 100; EAddMem 0 5 1 3 536870912; EAddConfig 0].
+  ex_session ++ [ENew 100 1; EAddMem 0 5 1 3 536870912; EAddConfig 0].
 
 Example ex_memvar_accepted_but_create_raises :
   let s := final init_st ex_mem_history in
@@ -85,7 +85,7 @@ Qed.
 
 (* ---------------------------------------------------------------- reconnect, re-add, start (F05c repaired) *)
 Definition ex_reconnect_history : list ev :=
-  ex_session ++ [ENew 100; EAddVar 0 1 1; EAddConfig 0; EStart 0;
+  ex_session ++ [ENew 100 1; EAddVar 0 1 1; EAddConfig 0; EStart 0;
                  EPacket 1 [6; 1; 0];      (* block created *)
                  EPacket 1 [3; 1; 0];      (* logging started *)
                  ELinkDown] ++
@@ -105,7 +105,7 @@ Proof. vm_compute. repeat split; reflexivity. Qed.
 
 (* protocol V1: 15 one-byte variables are accepted and sent in ONE message of 32 bytes *)
 Example ex_v1_32_bytes :
-  let evs := [ERefresh false; EPacket 1 [5; 0; 0]; ESetToc ex_toc; ENew 100] ++
+  let evs := [ERefresh false; EPacket 1 [5; 0; 0]; ESetToc ex_toc; ENew 100 1] ++
              ex_bytes [0;1;2;3;4;5;6;7;8;9;10;11;0;1;2] ++ [EAddConfig 0] in
   match snd (fst (start (final init_st (map (fun e => match e with ESetToc _ => ESetToc (map (fun k => mkT k k 1) [0;1;2;3;4;5;6;7;8;9;10;11]) | _ => e end) evs)) 0)) with
   | [OWire _ _ m _] => length m = 32%nat
@@ -120,7 +120,7 @@ Proof. vm_compute. reflexivity. Qed.
 Definition ex_toc_small : toc := [mkT 20 7 7; mkT 1 301 1].
 Definition ex_reject_then_accept : list ev :=
   [ERefresh true; EPacket 1 [5; 0; 0]; ESetToc ex_toc_small;
-   ENew 100; EAddVar 0 20 0; EAddVar 0 1 0; EAddVar 0 21 0; EAddConfig 0; ELinkDown;
+   ENew 100 1; EAddVar 0 20 0; EAddVar 0 1 0; EAddVar 0 21 0; EAddConfig 0; ELinkDown;
    ERefresh true; EPacket 1 [5; 0; 0]; ESetToc (ex_toc ++ [mkT 21 9 3]); EAddConfig 0].
 
 Example ex_rejected_add_changes_nothing :
@@ -216,3 +216,95 @@ Example ex_wire_12_variables :
   w_out (w_run w_init [WNew (nth 0 msgs []); WSend 0; WSet 0 (nth 1 msgs []); WSend 0; WTx; WTx])
     = [nth 1 msgs []; nth 1 msgs []].
 Proof. vm_compute. repeat split; reflexivity. Qed.
+
+(* ---------------------------------------------------------------- float periods (LogConfig(name, 33.3), 1000/rate ...) *)
+(* the period is int(period_in_ms / 10): binary64 quotient, truncated.  Each line: as_integer_ratio of the float,
+   the period the code computes. *)
+Example ex_float_periods :
+  map (fun '(a, b) => fperiod a b)
+    [(5623870034678907, 562949953421312)   (* 9.99 *);
+     (10, 1)   (* 10.0 *);
+     (5629499534213119, 562949953421312)   (* 9.999999999999998 *);
+     (5607289399332045, 2199023255552)   (* 2549.9 *);
+     (2550, 1)   (* 2550.0 *);
+     (5607509301657599, 2199023255552)   (* 2549.9999999999995 *);
+     (8444249301038205, 281474976710656)   (* 29.999999999 *);
+     (30, 1)   (* 30.0 *);
+     (8444249301319679, 281474976710656)   (* 29.999999999999996 *);
+     (2343279181116211, 70368744177664)   (* 33.3 *);
+     (20, 1)   (* 20.0 *);
+     (5864062014805333, 17592186044416)   (* 333.3333333333333 *);
+     (-1, 2)   (* -0.5 *);
+     (1152921504606847, 1152921504606846976)   (* 0.001 *)]
+  = [0; 1; 0; 254; 255; 254; 2; 3; 2; 3; 2; 33; 0; 0].
+Proof. vm_compute. reflexivity. Qed.
+
+(* for integer periods the rounded quotient truncates like integer division, on the whole range the acceptance
+   test can distinguish (bound in the statement) *)
+Example ex_int_periods_quot :
+  forallb (fun k => fperiod (Z.of_nat k - 200) 1 =? Z.quot (Z.of_nat k - 200) 10) (seq 0 3600) = true.
+Proof. vm_compute. reflexivity. Qed.
+
+Lemma period_of_new_config : forall s num den,
+  let '(s1, o, x) := step s (ENew num den) in
+  c_period (get s1 (length (s_cfgs s))) = fperiod num den /\ o = [] /\ x = None.
+Proof.
+  intros s num den. cbn [step]. unfold get. cbn [s_cfgs]. rewrite app_nth2 by lia.
+  rewrite Nat.sub_diag. cbn. auto.
+Qed.
+
+Lemma int_period_is_quot : forall ms, -200 <= ms < 3400 -> fperiod ms 1 = Z.quot ms 10.
+Proof.
+  intros ms H. pose proof ex_int_periods_quot as E. rewrite forallb_forall in E.
+  specialize (E (Z.to_nat (ms + 200))). rewrite Z2Nat.id in E by lia.
+  replace (ms + 200 - 200) with ms in E by lia. apply Z.eqb_eq, E. apply in_seq. lia.
+Qed.
+
+(* ---------------------------------------------------------------- a refused creation, then start() again (wave 12) *)
+(* start() of a block that is not added sends the creation messages, whatever `pending` says *)
+Lemma start_not_added_creates s h :
+  c_cf (get s h) = true -> s_link s = true -> c_added (get s h) = false -> create_guard s (get s h) = true ->
+  start s h = (put s h (set_pending (get s h) (c_pending (get s h) + 1)),
+               fst (create_msgs (c_v2 (get s h)) (s_toc s) (c_id (get s h)) (c_vars (get s h))),
+               snd (create_msgs (c_v2 (get s h)) (s_toc s) (c_id (get s h)) (c_vars (get s h)))).
+Proof.
+  intros Hc Hl Ha Hg. unfold start, create. rewrite Hc, Hl, Ha, Hg. cbn [negb].
+  destruct (create_msgs _ _ _ _). reflexivity.
+Qed.
+
+(* a refused creation (error status of Log._err_codes other than EEXIST) leaves added, started AND pending as
+   they were: only err_no changes, added_cb(False) and error_cb fire, nothing is sent *)
+Lemma refused_create_keeps_pending s cmd id status h :
+  (cmd =? g_cmd_create) || (cmd =? g_cmd_create_v2) = true -> find_block s id = Some h ->
+  (status =? 0) || (status =? g_eexist) = false -> err_known status = true ->
+  on_settings s cmd id status =
+    (put s h (set_errno (get s h) status), [OCb cb_added_err h [0]; OCb cb_error h [status]], None).
+Proof.
+  intros Hc Hf Hs He. unfold on_settings. rewrite Hf, Hc, Hs, He. reflexivity.
+Qed.
+
+(* the variant that does nothing while `pending` is set (seeded/C05-l) *)
+Definition start_guarded (s : st) (h : nat) : step_result :=
+  if negb (c_added (get s h)) && negb (c_pending (get s h) =? 0) then (s, [], None) else start s h.
+
+(* one variable; the device refuses the creation with ENOMEM; start() again: the code sends the creation
+   message again (and the device's positive acknowledgement then adds and starts the block); the guarded
+   variant sends nothing for ever *)
+Definition ex_refused_history : list ev :=
+  ex_session ++ [ENew 100 1; EAddVar 0 1 1; EAddConfig 0; EStart 0; EPacket 1 [6; 1; 12]].
+
+Example ex_refused_then_start_again :
+  let s := final init_st ex_refused_history in
+  flags (get s 0) = (false, false) /\ c_pending (get s 0) = 1 /\ c_errno (get s 0) = 12 /\
+  snd (fst (start s 0)) = [OWire 5 1 [6; 1; 17; 45; 1] [6; 1]] /\
+  snd (fst (start_guarded s 0)) = [] /\
+  (let s2 := final init_st (ex_refused_history ++ [EStart 0; EPacket 1 [6; 1; 0]; EPacket 1 [3; 1; 0]]) in
+   flags (get s2 0) = (true, true) /\ c_pending (get s2 0) = 0).
+Proof. vm_compute. repeat split; reflexivity. Qed.
+
+(* OBSERVATION (beyond the property text): start() twice before the create acknowledgement sends the creation
+   messages twice (the device answers the second with EEXIST, which the code treats as success) *)
+Example ex_start_twice_sends_create_twice :
+  let s := final init_st (ex_session ++ [ENew 100 1; EAddVar 0 1 1; EAddConfig 0; EStart 0]) in
+  snd (fst (start s 0)) = [OWire 5 1 [6; 1; 17; 45; 1] [6; 1]] /\ c_pending (get (fst (fst (start s 0))) 0) = 2.
+Proof. vm_compute. split; reflexivity. Qed.
